@@ -95,12 +95,19 @@ bool RSModel::Erase(const EntityUID target) {
   if (!core.Contains(target)) {
     return false;
   }
+  const auto dependants = core.RSLang().Graph().ExpandOutputs({ target });
   ResetDependants(target); // Note: dependants are found through graph edges removed by core.Erase
   if (!core.Erase(target)) {
     return false;
   } else {
     dataFacet->Erase(target);
     calulatorFacet->Erase(target);
+    for (const auto dependant : dependants) {
+      // Note: structures are pruned again now that the erased constituent no longer types them
+      if (dependant != target && core.GetRS(dependant).type == CstType::structured) {
+        dataFacet->PruneStructure(dependant);
+      }
+    }
     NotifyModification();
     return true;
   }
